@@ -38,6 +38,10 @@ CLAIMS = {
         text="PARTIAL, over ideal reals. Proved for every horizontal zoom 0..35 (and 36x36 zoom pairs at the top level): the vertex query returns eight points in the documented order NW, NE, SE, SW (bottom) then top, with longitudes 360*x/2^h-180 and 360*(x+1)/2^h-180, latitudes atan(sinh(pi*(1-2y/2^h))) and the same for y+1 (each cut toward zero at 1e-10 degrees by the point constructor), altitudes f*2^(25-v) and (f+1)*2^(25-v); the centre query returns the midpoint on every axis; a valid extended ID is parsed and dispatched to exactly these (option 0 = vertex, 1 = centre); unknown options, malformed IDs and zooms outside 0..35 are errors and nothing panics (C15 part, IEEE semantics).",
         note=TRUST + "float64 arithmetic is treated as real arithmetic in the functional clauses (a change of a formula, an index, the corner order or the option dispatch is detected; rounding effects are not): NOT decided are the round trip centre -> ID and the bit-exact coincidence of shared faces. atan, sinh are uninterpreted; that the edges of every grid row pass the constructor's latitude limit is a stated (trusted) precondition.",
         tech="deductive verification: WP VCs over go/ssa with float64 as ideal reals, uninterpreted transcendental functions, zoom case split, SMT", ref="4 C02"),
+    "C17": dict(category="other",
+        text="PARTIAL, over ideal reals. Proved for every output zoom 0..35: calcBitIndex returns the index of the cell of the 2^zoom-fold binary subdivision of [minHeight, maxHeight) that contains the altitude (loop invariant: the current interval is cell bitIndex of the 2^i-fold subdivision), 0 for altitudes below the range and 2^zoom-1 above it (clamped, never rejected), always within 0..2^zoom-1, and is monotone in the altitude (lemma); convertVerticallIDToBit returns exactly the top cell, the bottom cell and the cells in between in ascending order - a duplicate-free contiguous run from the cell of f*2^(25-v) to the cell of (f+1)*2^(25-v) - for every vertical zoom; maxHeight < minHeight and invalid zooms are errors in both list-level directions.",
+        note=TRUST + "float64 arithmetic is treated as real arithmetic (float comparisons at the subdivision borders are not decided). The reverse direction (convertBitToVerticalID: cell -> vertical indices via the point lookup and string surgery) is only assumed to terminate without panicking.",
+        tech="deductive verification: WP VCs over go/ssa with float64 as ideal reals, zoom x loop-index case split, lemma over the pure-function contract, SMT (nonlinear real arithmetic on small queries)", ref="4 C17"),
     "C03": dict(
         text="Contracts on the real per-axis kernels (HorizontalZoomMinMax, HorizontalZoom, VerticalZoom) prove, for every (input zoom, output zoom) pair in 0..35^2 and every index, the exact enumeration: zoom-in yields the 2^d (4^d) descendants in row-major order, zoom-out the floor ancestor (negative vertical indices included). Loop invariants are quantified, so list lengths are unbounded.",
         note=TRUST + "The cross-product/Unique level of ChangeExtendedSpatialIdsZoom is covered by the contracts of Unique and of the kernels; its own set-level postcondition is listed in DESIGN.md as not yet discharged.",
